@@ -1,7 +1,9 @@
 /* C12 implementation driver: the PUBLIC muggle_aes_* / muggle_des_* / muggle_tdes_* API
  * under ASan, hex in / hex out.
  *
- *   setkey <alg> <op> <mode> <bits> <keyhex|-> [nulls]     -> setkey <ERR>
+ *   setkey <alg> <op> <mode> <bits> <keyhex|-> [nulls]     -> setkey <ERR> [ks=<hex>]
+ *        (DES / 3DES, on success: the key schedule the call left in the public context
+ *         structure, ctx->sk resp. ctx1, ctx2, ctx3 - compared with the implementation-layer model)
  *        alg aes|des|tdes; op enc|dec|<int>; mode ecb|cbc|cfb|ofb|ctr|<int>;
  *        nulls: letters k (key / key1) 2 (key2) 3 (key3) c (ctx) or '-'.
  *        Starts a new phase: the outputs accumulated so far become "the previous phase".
@@ -151,7 +153,14 @@ static void do_setkey(char *line)
 		free(k1); free(k2); free(k3);
 	}
 	have_ctx = (rc == 0);
-	printf("setkey %s\n", errname(rc));
+	printf("setkey %s", errname(rc));
+	if (rc == 0 && alg == ALG_DES) { printf(" ks="); puthex((const unsigned char *)&dctx->sk, sizeof(dctx->sk)); }
+	if (rc == 0 && alg == ALG_TDES) {
+		printf(" ks="); puthex((const unsigned char *)&tctx->ctx1.sk, sizeof(tctx->ctx1.sk));
+		puthex((const unsigned char *)&tctx->ctx2.sk, sizeof(tctx->ctx2.sk));
+		puthex((const unsigned char *)&tctx->ctx3.sk, sizeof(tctx->ctx3.sk));
+	}
+	printf("\n");
 	free(key); free(khex);
 }
 
